@@ -167,6 +167,57 @@ def Sess.run (s : Sess) : List Poll → Sess × List (Nat × Fired)
     let (s2, tr) := Sess.run s1 ps
     (s2, (p.t, f) :: tr)
 
+/-! ## What ExaBGP writes itself, and how the hold time reaches the timers -/
+
+/-- Messages ExaBGP writes between two timer calls of the loop (`_send_route_updates` →
+    `Protocol.new_update_generator` → `Protocol.send`; `new_eor`; `new_refresh`; `new_operational`).
+    They bump `peer.stats['send-…']` and go through the same `Protocol` the `KA` object uses. -/
+inductive OutKind where
+  | update | eor | refresh | operational
+deriving DecidableEq, Repr
+
+/-- an event of the established phase: an iteration reaching the timers, or an outbound write -/
+inductive Ev where
+  | poll (p : Poll)
+  | out (t : Nat) (k : OutKind)
+deriving DecidableEq, Repr
+
+/-- Neither `ReceiveTimer` nor `SendTimer`/`KA` looks at what was written: outbound traffic
+    changes no timer state and fires nothing (in particular an UPDATE does **not** stand in for a
+    KEEPALIVE, and does not move `last_sent`). -/
+def Sess.step (s : Sess) : Ev → Sess × Fired
+  | .poll p => s.poll p
+  | .out _ _ => (s, .idle)
+
+def Sess.runEv (s : Sess) : List Ev → Sess × List (Nat × Fired)
+  | [] => (s, [])
+  | e :: es =>
+    let (s1, f) := s.step e
+    let (s2, tr) := Sess.runEv s1 es
+    (s2, ((match e with | .poll p => p.t | .out t _ => t), f) :: tr)
+
+/-- the iterations among the events -/
+def pollsOf : List Ev → List Poll
+  | [] => []
+  | .poll p :: es => p :: pollsOf es
+  | .out _ _ :: es => pollsOf es
+
+/-- `Negotiated._negotiate`: `self.holdtime = HoldTime(min(sent_open.hold_time, received_open.hold_time))` -/
+def negotiatedHold (localHold peerHold : Nat) : Nat := min localHold peerHold
+
+/-- `_establish`: `ReceiveTimer(session, self.proto.negotiated.holdtime, 4, 0)` -/
+def Recv.establish (localHold peerHold nowMs : Nat) : Recv :=
+  Recv.init (negotiatedHold localHold peerHold) TimerTable.holdNotify.1 TimerTable.holdNotify.2 nowMs
+
+/-- `_main`: `KA(session, self.proto)` → `SendTimer(session, proto.negotiated.holdtime)` -/
+def Send.establish (localHold peerHold nowMs : Nat) : Send :=
+  Send.init (negotiatedHold localHold peerHold) nowMs
+
+/-- both timers of a session whose two OPENs carried `localHold` and `peerHold` -/
+def Sess.establish (localHold peerHold tRecv tSend : Nat) : Sess :=
+  { recv := Recv.establish localHold peerHold tRecv, send := Send.establish localHold peerHold tSend,
+    closed := none }
+
 /-! ## Vocabulary of the property statements (specification side) -/
 
 /-- time of the last poll that delivered a real message, `t0` if there was none -/
